@@ -486,7 +486,7 @@ func check(p *prop, repo, tier string, seed int64) int {
 
 	// 4. evidence
 	m := mergeStats(statFiles)
-	m.Evaluations += fuzzExecs
+	m.Evaluations += fuzzExecs + m.Counters["exhaustive_cells"]
 	cov := map[string]any{
 		"evaluations":         m.Evaluations,
 		"distinct_nontrivial": len(m.Hashes),
